@@ -28,7 +28,7 @@ def check(repo, rep, tier):
     rc.r_chart(m, rep, 'R10.2')
     rc.r_search_loop(m, rep, 'R10.2')
     rc.r_expansion_unconditional(m, rep, 'R10.2')   # every accepted entry is expanded: no derivation is left out of the search
-    rc.r_guards(m, rep, 'R10.2')                    # unary steps wherever the grammar allows them (chains included), whatever nbest is
+    rc.r_guards(m, rep, 'R10.2', allow_stricter=False)                    # unary steps wherever the grammar allows them (chains included), whatever nbest is
     if len(m.by_kind.get('leaf', [])) == 1:
         rc.r_beam(m, rep, 'R10.2')                  # the derivations counted are those over the admitted tags: the admission rule itself (shared with C16)
     rc.r_priority(m, rep, 'R10.1')
